@@ -16,6 +16,11 @@ package merkletrie
 //       configuration, nothing evicted) built by inserting the sorted final set
 // shape: the stored trie read back through cache.getNode after everything else was observed.
 //
+// and, into cases_c17_store.txt, for the same run the node/page structure of the real cache after
+// every operation (see coq/model/MerkleTrieStoreCheck.v for the format):
+//
+//   (st npp (op...) (dump...))
+//
 // Streams: (1) EXHAUSTIVE op sequences up to a length bound over a small universe of 3-byte
 // keys with shared prefixes, once per page configuration class; (2) random long sequences over
 // random 32-byte keys (a few of them forced to share long prefixes) with random page
@@ -102,7 +107,7 @@ func vC17Err(err error) interface{} {
 }
 
 // one op on the real trie; a Go panic is reported as the symbol panic
-func vC17Apply(pmt **Trie, committer *InMemoryCommitter, cfg MemoryConfig, o vC17Op) (obs interface{}) {
+func vC17Apply(pmt **Trie, committer Committer, cfg MemoryConfig, o vC17Op) (obs interface{}) {
 	defer func() {
 		if r := recover(); r != nil {
 			obs = vSym("panic")
@@ -223,8 +228,192 @@ type vC17Stats struct {
 	errs, addTrue, addFalse, delTrue int
 }
 
+// ---- store dumps: the node/page structure of the real cache after every operation ----
+
+var vC17StoreOut *vOut // when non-nil, vC17Run also writes a (st ...) case for the sequence
+var vC17StoreCases int
+
+func vC17NodeTerm(n *node) interface{} {
+	if n.leaf() {
+		return slices.Clone(n.hash)
+	}
+	l := vL()
+	for _, c := range n.children {
+		l = append(l, vL(int(c.hashIndex), uint64(c.id))) // (hashIndex childid)
+	}
+	return l
+}
+
+func vC17SortedIDs(m map[storedNodeIdentifier]*node) []storedNodeIdentifier {
+	ids := make([]storedNodeIdentifier, 0, len(m))
+	for id := range m {
+		ids = append(ids, id)
+	}
+	sort.Slice(ids, func(i, j int) bool { return ids[i] < ids[j] })
+	return ids
+}
+
+func vC17Dump(res interface{}, mt *Trie, committer *InMemoryCommitter) []interface{} {
+	memL := vL(vSym("mem"))
+	var pages []uint64
+	for p := range mt.cache.pageToNIDsPtr {
+		pages = append(pages, p)
+	}
+	sort.Slice(pages, func(i, j int) bool { return pages[i] < pages[j] })
+	for _, p := range pages {
+		m := mt.cache.pageToNIDsPtr[p]
+		for _, id := range vC17SortedIDs(m) {
+			memL = append(memL, vL(uint64(id), vC17NodeTerm(m[id])))
+		}
+	}
+	diskL := vL(vSym("disk"))
+	pages = pages[:0]
+	for p := range committer.memStore {
+		if p != 0 {
+			pages = append(pages, p)
+		}
+	}
+	sort.Slice(pages, func(i, j int) bool { return pages[i] < pages[j] })
+	for _, p := range pages {
+		nodes, err := decodePage(committer.memStore[p])
+		if err != nil {
+			diskL = append(diskL, vL(p, vSym("undecodable")))
+			continue
+		}
+		for _, id := range vC17SortedIDs(nodes) {
+			diskL = append(diskL, vL(uint64(id), vC17NodeTerm(nodes[id])))
+		}
+	}
+	rootL := vL(false, 0, 0, 0)
+	if rb := committer.memStore[0]; rb != nil {
+		var tmp Trie
+		if _, err := tmp.deserialize(rb); err == nil {
+			rootL = vL(true, uint64(tmp.root), uint64(tmp.nextNodeID), tmp.elementLength)
+		}
+	}
+	createdL := vL(vSym("created"))
+	var cr []uint64
+	for id, v := range mt.cache.pendingCreatedNID {
+		if v {
+			cr = append(cr, uint64(id))
+		}
+	}
+	sort.Slice(cr, func(i, j int) bool { return cr[i] < cr[j] })
+	for _, id := range cr {
+		createdL = append(createdL, id)
+	}
+	delL := vL(vSym("delpages"))
+	var dp []uint64
+	for pg, v := range mt.cache.pendingDeletionPages {
+		if v {
+			dp = append(dp, pg)
+		}
+	}
+	sort.Slice(dp, func(i, j int) bool { return dp[i] < dp[j] })
+	for _, pg := range dp {
+		delL = append(delL, pg)
+	}
+	if b, isBytes := res.([]byte); isBytes {
+		res = slices.Clone(b)
+	}
+	return vL(res, uint64(mt.root), uint64(mt.nextNodeID), mt.elementLength, mt.cache.deferedPageLoad, mt.cache.modified,
+		createdL, delL, memL, diskL, rootL)
+}
+
+// the operation together with the choices the implementation made while executing it: the ids
+// re-allocated by a commit (old new), the nextNodeID after it, and the pages Evict released
+type vC17Snap struct {
+	id       storedNodeIdentifier
+	children []storedNodeIdentifier
+}
+
+func vC17StoreOp(o vC17Op, committed bool, before, after map[*node]vC17Snap, mt *Trie) []interface{} {
+	rho := vL()
+	next := uint64(0)
+	if committed {
+		next = uint64(mt.nextNodeID)
+		// a node keeps its Go pointer when it is re-allocated; nodes that were loaded by the commit
+		// itself and then moved are found through the child pointers of their (in-memory) parents
+		m := map[uint64]uint64{}
+		for ptr, a := range after {
+			b, ok := before[ptr]
+			if !ok {
+				continue
+			}
+			if b.id != a.id {
+				m[uint64(b.id)] = uint64(a.id)
+			}
+			if len(b.children) == len(a.children) {
+				for i := range b.children {
+					if b.children[i] != a.children[i] {
+						m[uint64(b.children[i])] = uint64(a.children[i])
+					}
+				}
+			}
+		}
+		type pr struct{ o, n uint64 }
+		var prs []pr
+		for k, v := range m {
+			prs = append(prs, pr{k, v})
+		}
+		sort.Slice(prs, func(i, j int) bool { return prs[i].o < prs[j].o })
+		for _, q := range prs {
+			rho = append(rho, vL(q.o, q.n))
+		}
+	}
+	switch o.kind {
+	case 'a', 'd':
+		return o.term()
+	case 'c':
+		return vL(vSym("c"), rho, next)
+	case 'h':
+		return vL(vSym("h"), rho, next)
+	case 'e':
+		droppedL := vL()
+		npp := uint64(mt.cache.nodesPerPage)
+		for p := uint64(storedNodeIdentifierBase) / npp; p <= uint64(mt.nextNodeID)/npp; p++ {
+			if _, has := mt.cache.pageToNIDsPtr[p]; !has {
+				droppedL = append(droppedL, p)
+			}
+		}
+		return vL(vSym("e"), o.flag, rho, next, droppedL)
+	default:
+		return vL(vSym("r"))
+	}
+}
+
+// vC17Committer passes everything to the package's InMemoryCommitter and lets the harness look at
+// the cache at the moment the root page is stored, i.e. right after cache.commit() and before
+// anything else (Evict(true) releases pages after that point)
+type vC17Committer struct {
+	*InMemoryCommitter
+	onRoot func()
+}
+
+func (c *vC17Committer) StorePage(page uint64, content []byte) error {
+	if page == storedNodeIdentifierNull && c.onRoot != nil {
+		c.onRoot()
+	}
+	return c.InMemoryCommitter.StorePage(page, content)
+}
+
+func vC17Pointers(mt *Trie) map[*node]vC17Snap {
+	r := make(map[*node]vC17Snap)
+	for _, m := range mt.cache.pageToNIDsPtr {
+		for id, ptr := range m {
+			sn := vC17Snap{id: id}
+			for _, c := range ptr.children {
+				sn.children = append(sn.children, c.id)
+			}
+			r[ptr] = sn
+		}
+	}
+	return r
+}
+
 func vC17Run(out *vOut, st *vC17Stats, cfg MemoryConfig, ops []vC17Op, hashing bool) {
-	committer := &InMemoryCommitter{}
+	inner := &InMemoryCommitter{}
+	committer := &vC17Committer{InMemoryCommitter: inner}
 	mt, err := MakeTrie(committer, cfg)
 	if err != nil {
 		panic(err)
@@ -232,8 +421,27 @@ func vC17Run(out *vOut, st *vC17Stats, cfg MemoryConfig, ops []vC17Op, hashing b
 	book := &vC17Book{cur: map[string]bool{}, committed: map[string]bool{}}
 	topsL, obsL := vL(), vL()
 	dropped, broken := false, false
-	for _, o := range ops {
+	storeOps, storeDumps := vL(), vL()
+	step := func(o vC17Op) interface{} {
+		if vC17StoreOut == nil {
+			return vC17Apply(&mt, committer, cfg, o)
+		}
+		willCommit := o.kind == 'c' || (o.kind == 'e' && o.flag && mt.cache.modified) ||
+			(o.kind == 'h' && mt.root != storedNodeIdentifierNull && mt.cache.modified)
+		var before, after map[*node]vC17Snap
+		if willCommit {
+			before = vC17Pointers(mt)
+			cur := mt
+			committer.onRoot = func() { after = vC17Pointers(cur) }
+		}
 		ob := vC17Apply(&mt, committer, cfg, o)
+		committer.onRoot = nil
+		storeOps = append(storeOps, vC17StoreOp(o, willCommit && after != nil, before, after, mt))
+		storeDumps = append(storeDumps, vC17Dump(ob, mt, inner))
+		return ob
+	}
+	for _, o := range ops {
+		ob := step(o)
 		topsL = append(topsL, o.term())
 		obsL = append(obsL, ob)
 		book.apply(o)
@@ -258,7 +466,7 @@ func vC17Run(out *vOut, st *vC17Stats, cfg MemoryConfig, ops []vC17Op, hashing b
 				st.panics++
 			}
 		}
-		dropped = dropped || (o.kind == 'e' && vC17LastPageDropped(mt, committer))
+		dropped = dropped || (o.kind == 'e' && vC17LastPageDropped(mt, inner))
 		if s, isSym := ob.(vSym); isSym && (s == "panic" || s == "ioerr") {
 			broken = true
 			break // the trie may be inconsistent after a panic / storage error: stop here
@@ -268,7 +476,7 @@ func vC17Run(out *vOut, st *vC17Stats, cfg MemoryConfig, ops []vC17Op, hashing b
 	var root []byte
 	if !broken {
 		fin := vC17Op{kind: 'h'}
-		ob := vC17Apply(&mt, committer, cfg, fin)
+		ob := step(fin)
 		topsL = append(topsL, fin.term())
 		obsL = append(obsL, ob)
 		book.apply(fin)
@@ -287,6 +495,10 @@ func vC17Run(out *vOut, st *vC17Stats, cfg MemoryConfig, ops []vC17Op, hashing b
 	shape := vC17Shape(mt)
 	cfgL := vL(vSym("cfg"), cfg.NodesCountPerPage, cfg.CachedNodesCount, int(cfg.PageFillFactor*100), cfg.MaxChildrenPagesThreshold)
 	out.Case(vSym("seq"), cfgL, topsL, obsL, setL, root, fresh, shape, hashing, dropped)
+	if vC17StoreOut != nil {
+		vC17StoreOut.Case(vSym("st"), cfg.NodesCountPerPage, storeOps, storeDumps)
+		vC17StoreCases++
+	}
 	st.cases++
 	if dropped {
 		st.dropped++
@@ -322,6 +534,12 @@ func TestVerifC17(t *testing.T) {
 	st := &vC17Stats{byKind: map[string]int{}, byCfg: map[string]int{}, finalSize: map[int]int{}}
 	rnd := vNewRand(17)
 	hashEvery := vEnvInt("VERIF_C17_HASH_EVERY", 4)
+	storeEvery := vEnvInt("VERIF_C17_STORE_EVERY", 1) // store dumps for every n-th exhaustive sequence
+
+	storeOut := vOpen("cases_c17_store.txt")
+	defer storeOut.Close()
+	vC17StoreOut = storeOut
+	defer func() { vC17StoreOut = nil }()
 
 	// ---- (1) exhaustive sequences
 	nk := vEnvInt("VERIF_C17_KEYS", 4)
@@ -344,7 +562,11 @@ func TestVerifC17(t *testing.T) {
 		// every sequence (all prefixes included) is a case, under a configuration chosen round-robin
 		// from the small ones so that each configuration sees a dense sample and the union is exhaustive
 		cfg := vC17Cfgs[exhaustive%len(vC17Cfgs)]
+		if exhaustive%storeEvery != 0 {
+			vC17StoreOut = nil
+		}
 		vC17Run(out, st, cfg, seq, exhaustive%hashEvery == 0)
+		vC17StoreOut = storeOut
 		exhaustive++
 		if len(seq) == maxLen {
 			return
@@ -377,7 +599,7 @@ func TestVerifC17(t *testing.T) {
 		}
 	}
 
-	// ---- (2) random long sequences over 32-byte keys
+	// ---- (2) random long sequences over 32-byte keys (store dumps for every 8th only: they are large)
 	nRand := vEnvInt("VERIF_C17_RANDOM", 150)
 	maxOps := vEnvInt("VERIF_C17_RANDOM_OPS", 120)
 	for i := 0; i < nRand; i++ {
@@ -423,7 +645,11 @@ func TestVerifC17(t *testing.T) {
 				ops = append(ops, vC17Op{kind: 'h'})
 			}
 		}
+		if i%8 != 0 {
+			vC17StoreOut = nil
+		}
 		vC17Run(out, st, cfg, ops, i%hashEvery == 0)
+		vC17StoreOut = storeOut
 	}
 
 	// ---- (2b) commit / evict / reload cycles: a few changes, then a storage transition, repeated; the
@@ -511,7 +737,7 @@ func TestVerifC17(t *testing.T) {
 	vStats(map[string]interface{}{
 		"cases": st.cases, "ops": st.ops, "exhaustive_sequences": exhaustive,
 		"exhaustive_universe_keys": nk, "exhaustive_max_len": maxLen, "alphabet": len(alphabet),
-		"random_sequences": nRand, "commit_evict_reload_cycle_sequences": nCyc, "malformed_sequences": nBad, "hashing_cases": st.hashing,
+		"random_sequences": nRand, "commit_evict_reload_cycle_sequences": nCyc, "malformed_sequences": nBad, "hashing_cases": st.hashing, "store_dump_cases": vC17StoreCases,
 		"ops_by_kind": st.byKind, "cases_by_config": st.byCfg, "final_set_size": st.finalSize,
 		"length_errors_and_evict_refusals": st.errs, "add_true": st.addTrue, "add_false": st.addFalse,
 		"delete_true": st.delTrue, "panics": st.panics, "cases_where_evict_dropped_partial_last_page": st.dropped,
